@@ -648,10 +648,24 @@ class FunctionVisitor(transformer.Base):
                         closure_types)
     analyzer.visit_forward()
 
-    # Recursively process any remaining subfunctions.
-    node.body = self.visit_block(node.body)
+    # Recursively process any remaining subfunctions. Analysing one of them
+    # can extend the closure types of the others (a local function that calls
+    # a local function defined before it), so repeat until they are stable.
+    while True:
+      before = self._closure_types_below(node)
+      node.body = self.visit_block(node.body)
+      if self._closure_types_below(node) == before:
+        break
 
     return node
+
+  def _closure_types_below(self, node):
+    result = {}
+    for n in ast.walk(node):
+      if n is not node and isinstance(n, ast.FunctionDef):
+        closure_types = anno.getanno(n, anno.Static.CLOSURE_TYPES, {})
+        result[n] = {k: frozenset(v) for k, v in closure_types.items()}
+    return result
 
 
 def resolve(node, source_info, graphs, resolver):
